@@ -109,10 +109,11 @@ func (i *itemsValidator) Validate(index int, data interface{}) *Result {
 		}
 
 		validator.SetPath(path)
-		err := validator.Validate(data)
 		if i.Options.recycleValidators {
+			// released before running: the validator redeems itself, even if it panics
 			i.validators[idx] = nil // prevents further (unsafe) usage
 		}
+		err := validator.Validate(data)
 		if err != nil {
 			result.Inc()
 			if err.HasErrors() {
@@ -390,10 +391,11 @@ func (p *HeaderValidator) Validate(data interface{}) *Result {
 			continue
 		}
 
-		err := validator.Validate(data)
 		if p.Options.recycleValidators {
+			// released before running: the validator redeems itself, even if it panics
 			p.validators[idx] = nil // prevents further (unsafe) usage
 		}
+		err := validator.Validate(data)
 		if err != nil {
 			if err.HasErrors() {
 				result.Merge(err)
@@ -582,10 +584,11 @@ func (p *ParamValidator) Validate(data interface{}) *Result {
 			continue
 		}
 
-		err := validator.Validate(data)
 		if p.Options.recycleValidators {
+			// released before running: the validator redeems itself, even if it panics
 			p.validators[idx] = nil // prevents further (unsafe) usage
 		}
+		err := validator.Validate(data)
 		if err != nil {
 			if err.HasErrors() {
 				result.Merge(err)
